@@ -74,8 +74,29 @@ func (w *Worker) bigCmp(a, b BigVal) *Term {
 	if bw := bigWidth(b); bw > wd {
 		wd = bw
 	}
-	x, y := w.bigTerm(a, wd), w.bigTerm(b, wd)
-	x, y = tc.Sext(x, wd), tc.Sext(y, wd)
+	x, y := tc.Sext(w.bigTerm(a, wd), wd), tc.Sext(w.bigTerm(b, wd), wd)
+	if x == y {
+		return tc.Const(64, 0)
+	}
+	// Wide symbolic values (DH-sized): decide the order eagerly (three-way
+	// fork) with atoms in a canonical operand order, so that the result is a
+	// constant on each path and the mirrored comparison of the peer folds.
+	if wd > 128 && a.T != nil && b.T != nil && w.noFork == 0 {
+		swap := x.id > y.id
+		if swap {
+			x, y = y, x
+		}
+		r := int64(1)
+		if w.decideBool(tc.Cmp(OpSlt, x, y)) {
+			r = -1
+		} else if w.decideBool(tc.Eq(x, y)) {
+			r = 0
+		}
+		if swap {
+			r = -r
+		}
+		return tc.Const(64, uint64(r))
+	}
 	return tc.Ite(tc.Cmp(OpSlt, x, y), tc.Const(64, ^uint64(0)), tc.Ite(tc.Eq(x, y), tc.Const(64, 0), tc.Const(64, 1)))
 }
 
